@@ -194,10 +194,24 @@ where
     FG: Frame<Sample = <FB::Sample as Sample>::Float, NumChannels = FB::NumChannels>,
     FG::Sample: dasp_sample::FloatSample,
 {
+    if let Some(x) = inplace_case_with::<FA, FB, FG>(name, la, lb, mka, mkb, gain, false) {
+        return Some(x);
+    }
+    // the same with a silent second slice (a "nothing to add" shortcut must still refuse a length mismatch)
+    inplace_case_with::<FA, FB, FG>(name, la, lb, mka, mkb, gain, true)
+}
+
+fn inplace_case_with<FA, FB, FG>(name: &str, la: usize, lb: usize, mka: fn(usize) -> FA, mkb: fn(usize) -> FB, gain: FG, silent_b: bool) -> Bad
+where
+    FA: Frame + PartialEq + Debug,
+    FB: Frame<Sample = <FA::Sample as Sample>::Signed, NumChannels = FA::NumChannels> + PartialEq + Debug,
+    FG: Frame<Sample = <FB::Sample as Sample>::Float, NumChannels = FB::NumChannels>,
+    FG::Sample: dasp_sample::FloatSample,
+{
     let a0: Vec<FA> = (0..la).map(mka).collect();
-    let a1: Vec<FA> = (0..lb).map(|i| mka(i + 40)).collect();
-    let b: Vec<FB> = (0..lb).map(mkb).collect();
-    let tag = format!("{name} la={la} lb={lb}");
+    let a1: Vec<FA> = (0..lb).map(|i| if silent_b { FA::EQUILIBRIUM } else { mka(i + 40) }).collect();
+    let b: Vec<FB> = (0..lb).map(|i| if silent_b { FB::EQUILIBRIUM } else { mkb(i) }).collect();
+    let tag = format!("{name} la={la} lb={lb}{}", if silent_b { " (second slice silent)" } else { "" });
     // single-slice ops (la only)
     if lb == 0 {
         let mut a = a0.clone();
